@@ -74,6 +74,132 @@ func c10(c *Ctx) {
 		return assignRHS(n, func(e ast.Expr) bool { return isField(info, e, fEnd) }) != nil
 	})
 	ruleEndAtomic(c, ix, le, "R2")
+	// … and what End stores is an ended time in the sense of isRecording (endTime.IsZero() is the test): the monotonic "now", or a
+	// caller-supplied timestamp that was itself found !IsZero(). A zero instant in another location is != time.Time{} and still
+	// IsZero: stored as end time it leaves the span recording, and every further End delivers it again.
+	{
+		isTimestampCall := func(e ast.Expr) bool {
+			call, ok := unparen(e).(*ast.CallExpr)
+			if !ok {
+				return false
+			}
+			cf := callee(info, call)
+			return cf != nil && cf.Name() == "Timestamp"
+		}
+		isZeroOf := func(cnd ast.Expr, val ast.Expr) bool {
+			call, ok := unparen(cnd).(*ast.CallExpr)
+			if !ok || !isCallTo(info, call, "(time.Time).IsZero") {
+				return false
+			}
+			recv, _ := methodCall(info, call)
+			if recv == nil {
+				return false
+			}
+			if o := objOf(info, val); o != nil {
+				return sameVar(info, recv, o)
+			}
+			return isTimestampCall(val) && isTimestampCall(recv)
+		}
+		var judge func(e ast.Expr, at *GNode, depth int) string
+		judge = func(e ast.Expr, at *GNode, depth int) string {
+			e = unparen(e)
+			guarded := func(val ast.Expr) bool {
+				d, _ := g.DominatedByEdges(at, func(ed *GEdge) bool {
+					return edgeImplies(ed, func(cnd ast.Expr, pol int) bool { return pol < 0 && isZeroOf(cnd, val) })
+				})
+				return d
+			}
+			if isTimestampCall(e) {
+				if guarded(e) {
+					return ""
+				}
+				// store first, repair after: s.endTime = ts; if s.endTime.IsZero() { s.endTime = et } — from the store every way on
+				// crosses the !IsZero() outcome of a test of the field, or another store to it
+				isFieldZero := func(cnd ast.Expr) bool {
+					call, ok := unparen(cnd).(*ast.CallExpr)
+					if !ok || !isCallTo(info, call, "(time.Time).IsZero") {
+						return false
+					}
+					recv, _ := methodCall(info, call)
+					return recv != nil && isField(info, recv, fEnd)
+				}
+				otherStores := map[*GNode]bool{}
+				for _, st2 := range stores {
+					if st2 != at {
+						otherStores[st2] = true
+					}
+				}
+				seen, _ := g.Reach([]*GNode{at}, func(y *GNode) bool { return otherStores[y] }, func(ed *GEdge) bool {
+					return edgeImplies(ed, func(cnd ast.Expr, pol int) bool { return pol < 0 && isFieldZero(cnd) })
+				})
+				if !seen[g.Exit] {
+					return ""
+				}
+				return "the option's timestamp is stored without having been found !IsZero()"
+			}
+			if call, ok := e.(*ast.CallExpr); ok {
+				if isCallTo(info, call, "cmp.Or") || isCallTo(info, call, "max") || isCallTo(info, call, "min") {
+					return exprStr(e) + " selects by comparison with the zero value, not by IsZero()"
+				}
+				return "" // a clock reading
+			}
+			if v, ok := objOf(info, e).(*types.Var); ok && !v.IsField() && depth < 3 {
+				// every definition of the local: a clock reading / parameter, or a timestamp assigned under its own !IsZero()
+				bad := ""
+				for _, y := range g.Nodes {
+					as, isAs := y.N.(*ast.AssignStmt)
+					if !isAs || len(as.Lhs) != len(as.Rhs) {
+						continue
+					}
+					for i, l := range as.Lhs {
+						if !sameVar(info, l, v) {
+							continue
+						}
+						r := unparen(as.Rhs[i])
+						if isTimestampCall(r) {
+							// ts := config.Timestamp(): fine if the use is guarded by !ts.IsZero() (checked at the use) or the
+							// assignment itself is
+							d1, _ := g.DominatedByEdges(at, func(ed *GEdge) bool {
+								return edgeImplies(ed, func(cnd ast.Expr, pol int) bool { return pol < 0 && isZeroOf(cnd, l) })
+							})
+							d2, _ := g.DominatedByEdges(y, func(ed *GEdge) bool {
+								return edgeImplies(ed, func(cnd ast.Expr, pol int) bool { return pol < 0 && isZeroOf(cnd, r) })
+							})
+							if !d1 && !d2 {
+								bad = "the local " + v.Name() + " can hold the option's timestamp without it having been found !IsZero()"
+							}
+							continue
+						}
+						if w := judge(r, y, depth+1); w != "" {
+							bad = w
+						}
+					}
+				}
+				return bad
+			}
+			return ""
+		}
+		nSt, bad := 0, ""
+		var badPos token.Pos
+		for _, st := range stores {
+			r := assignRHS(st.N, func(e ast.Expr) bool { return isField(info, e, fEnd) })
+			if r == nil {
+				continue
+			}
+			nSt++
+			if w := judge(r, st, 0); w != "" {
+				bad, badPos = w, st.N.Pos()
+			}
+		}
+		if nSt > 0 {
+			pos := end.Pos()
+			if bad != "" {
+				pos = badPos
+			}
+			c.Check(bad == "", "R2", "sdk/trace|(*recordingSpan).End|the stored end time is never IsZero()", at(ix.M, pos), itoa(nSt)+" store(s): the clock, or a timestamp found !IsZero()",
+				"End can store an end time for which IsZero() holds (e.g. WithTimestamp(time.Time{}.Local())): the span keeps recording after End and every further End delivers it to the processors again — "+bad)
+		}
+	}
 	// … and IsRecording answers from state that End changes inside that same critical section: a flag published after the
 	// unlock lets a racing second End return (its isRecording() test fails at once) while IsRecording still says true
 	if isRecPub := c.Fn(ix, "R2", "(*recordingSpan).IsRecording"); isRecPub != nil {
